@@ -93,7 +93,7 @@ PROPS["C10"] = {
 }
 
 PROPS["C09"] = {
-    "kind": "harness", "test": "TestC09", "level": "exploration", "journal": False, "ulimit_v_kb": 16 * 1024 * 1024,
+    "kind": "harness", "test": "TestC09", "level": "exploration", "journal": True, "ulimit_v_kb": 16 * 1024 * 1024,
     "tiers": tiers(20000, 8, 300000, 16),
     "native_fuzz": {"target": "FuzzC09", "seconds": 150},
     "rule": "inputs to exactly engine.parseSQL's pipeline (NewTokenScanner -> TokenList -> Parser.Parse) under recover() and a 10 s hang watchdog: (a) bounded-exhaustive: every sequence of 3 tokens over the full vocabulary "
@@ -172,7 +172,7 @@ PROPS["C14"] = {
 PROPS["C16"] = {
     "kind": "harness", "test": "TestC16", "level": "exploration",
     "tiers": tiers(400, 8, 6000, 16),
-    "rule": "rapid-generated histories of 10-70 valid statements over up to 6 tables (table sizes bounded so that a full-table UPDATE/DELETE dirties fewer pages than the cache holds - the property's precondition), executed twice through the real engine: "
+    "rule": "rapid-generated histories of 25-90 valid statements over up to 14 tables (every statement's dirty set fits the cache - the property's precondition: INSERTs of at most 4*(cache-6) rows, UPDATE/DELETE touching at most cache-6 rows - while the tables themselves grow far beyond the cache), executed twice through the real engine: "
             "with the default cache of 10000 pages and with a cache of a generated capacity 12-40 pages (hook VerifSetCacheSize) and a flush after every statement. Oracle (differential + model): every statement has the same outcome, "
             "'cache full' while the dirty set fits is a violation, the cache never exceeds its capacity, no page stays dirty after a flush, and at the end every table and both catalog tables are identical row by row including row ids; both runs also equal the reference model. "
             "Non-trivial: the small-cache run re-read pages from the data file during reads (counted through the cache.set hook) on a database of at least twice the cache size; distinct by case JSON.",
